@@ -252,3 +252,83 @@ pub fn c07_min_ada<S: Src>(s: &mut S) {
         Err(_) => assert!(widest > u64::MAX as u128, "min_ada_for_output errs although the widest bound fits u64"),
     }
 }
+
+/// draws: n, (mem, steps)*n, n1, d1, n2, d2 — script fee of a transaction with n redeemers vs the ledger definition
+pub fn script_fee<S: Src>(s: &mut S) {
+    let n = s.u8();
+    s.assume(n <= 6);
+    let mut reds = Redeemers::new();
+    let (mut m, mut st) = (NB::zero(), NB::zero());
+    for i in 0..n {
+        let (a, b) = (s.u64(), s.u64());
+        reds.add(&Redeemer::new(&RedeemerTag::new_spend(), &BigNum::from(i as u64), &PlutusData::new_integer(&BigInt::from_str("1").unwrap()), &ExUnits::new(&BigNum::from(a), &BigNum::from(b))));
+        m += NB::from(a); st += NB::from(b);
+    }
+    let (n1, d1, n2, d2) = (s.u64(), s.u64(), s.u64(), s.u64());
+    s.assume(d1 > 0 && d2 > 0);
+    let mut ws = TransactionWitnessSet::new();
+    ws.set_redeemers(&reds);
+    let body = TransactionBody::new_tx_body(&TransactionInputs::new(), &TransactionOutputs::new(), &BigNum::from(0u64));
+    let tx = Transaction::new(&body, &ws, None);
+    let r = min_script_fee(&tx, &ExUnitPrices::new(&ui(n1, d1), &ui(n2, d2)));
+    let num = &m * NB::from(n1) * NB::from(d2) + &st * NB::from(n2) * NB::from(d1);
+    let den = NB::from(d1) * NB::from(d2);
+    let exact = Integer::div_ceil(&num, &den);
+    match r {
+        Ok(v) => assert!(exact.to_u64() == Some(u64::from(v)) && m.to_u64().is_some() && st.to_u64().is_some(), "script fee differs from ceil(price of the summed units)"),
+        Err(_) => assert!(exact.to_u64().is_none() || m.to_u64().is_none() || st.to_u64().is_none(), "script fee errs although everything fits"),
+    }
+}
+
+// ---------------------------------------------------------------- C19: collateral
+/// draws: mode (0: explicit return -> total, 1: explicit total -> return), inputs_coin, inputs_q, ret_coin, ret_q, total, stale
+/// With zero-cost parameters (min ADA 0) the body-level equation  collateral inputs == return + total  (lovelace and the
+/// asset) must hold whenever the setter reports success.
+pub fn c19_collateral<S: Src>(s: &mut S) {
+    let mode = s.u8();
+    let (ic, iq, rc, rq, total) = (s.u64(), s.u64(), s.u64(), s.u64(), s.u64());
+    let stale = s.u8();
+    let mut tb = TransactionBuilder::new(&cfg_zero_cost());
+    let mut col = TxInputsBuilder::new();
+    col.add_regular_input(&ent_addr(1), &TransactionInput::new(&TransactionHash::from([2u8; 32]), 0), &val(ic, iq)).unwrap();
+    tb.set_collateral(&col);
+    if mode == 0 {
+        let ret = TransactionOutput::new(&ent_addr(3), &val(rc, rq));
+        if tb.set_collateral_return_and_total(&ret).is_ok() {
+            let b = tb.build_tx_unsafe_parts();
+            let (r, t) = (b.0.expect("return set"), b.1.expect("total set"));
+            let (rv, tv) = (r.amount(), u64::from(t));
+            let rqv = asset_q(&rv);
+            assert!(ic as u128 == u64::from(rv.coin()) as u128 + tv as u128 && iq == rqv,
+                "collateral inputs != collateral return + total collateral (inputs {}+{} asset, return {}+{} asset, total {})", ic, iq, u64::from(rv.coin()), rqv, tv);
+        }
+    } else {
+        if stale != 0 {
+            // an earlier call left a return output behind
+            tb.set_collateral_return(&TransactionOutput::new(&ent_addr(3), &val(5, 0)));
+        }
+        if tb.set_total_collateral_and_return(&BigNum::from(total), &ent_addr(3)).is_ok() {
+            let b = tb.build_tx_unsafe_parts();
+            let t = u64::from(b.1.expect("total set"));
+            let (rcoin, rqv) = match b.0 { Some(r) => (u64::from(r.amount().coin()), asset_q(&r.amount())), None => (0, 0) };
+            assert!(ic as u128 == rcoin as u128 + t as u128 && iq == rqv,
+                "collateral inputs != collateral return + total collateral (inputs {}+{} asset, return {}+{} asset, total {})", ic, iq, rcoin, rqv, t);
+        }
+    }
+}
+fn asset_q(v: &Value) -> u64 {
+    match v.multiasset() {
+        None => 0,
+        Some(ma) => u64::from(ma.get_asset(&ScriptHash::from([7u8; 28]), &AssetName::new(vec![1, 2, 3]).unwrap())),
+    }
+}
+trait CollateralParts { fn build_tx_unsafe_parts(&self) -> (Option<TransactionOutput>, Option<BigNum>); }
+impl CollateralParts for TransactionBuilder {
+    /// (collateral_return, total_collateral) as the body would carry them — read through the public build() path
+    fn build_tx_unsafe_parts(&self) -> (Option<TransactionOutput>, Option<BigNum>) {
+        let mut b = self.clone();
+        b.set_fee(&BigNum::from(0u64));
+        let body = b.build().expect("body builds");
+        (body.collateral_return(), body.total_collateral())
+    }
+}
